@@ -6,6 +6,7 @@ import (
 	"go/token"
 	"go/types"
 	"regexp"
+	"sort"
 	"strings"
 
 	"golang.org/x/tools/go/ssa"
@@ -1688,4 +1689,165 @@ func phiHasOtherConst(ph *ssa.Phi, k int64, seen map[*ssa.Phi]bool) bool {
 		}
 	}
 	return false
+}
+
+// FeasiblyPrecedes: some path leads from a to b, where a branch on a boolean merge is followed
+// only the way the merge's value on the edge just taken says (a flag set to a constant right
+// before the test: `matched = true` followed by the loop's `for !matched`).
+func FeasiblyPrecedes(a, b ssa.Instruction) bool {
+	if a.Block() == b.Block() && instrIndex(a) < instrIndex(b) {
+		return true
+	}
+	type st struct {
+		blk  *ssa.BasicBlock
+		from *ssa.BasicBlock
+	}
+	seen := map[st]bool{}
+	var walk func(blk, from *ssa.BasicBlock) bool
+	walk = func(blk, from *ssa.BasicBlock) bool {
+		k := st{blk, from}
+		if seen[k] {
+			return false
+		}
+		seen[k] = true
+		if blk == b.Block() && from != nil {
+			return true
+		}
+		succs := blk.Succs
+		if len(blk.Instrs) > 0 && from != nil {
+			if iff, ok := blk.Instrs[len(blk.Instrs)-1].(*ssa.If); ok {
+				cond, neg := iff.Cond, false
+				if u, ok := cond.(*ssa.UnOp); ok && u.Op == token.NOT {
+					cond, neg = u.X, true
+				}
+				if ph, ok := cond.(*ssa.Phi); ok && ph.Block() == blk {
+					for i, pb := range blk.Preds {
+						if pb != from || i >= len(ph.Edges) {
+							continue
+						}
+						if c, ok := ph.Edges[i].(*ssa.Const); ok && c.Value != nil && c.Value.Kind() == constant.Bool {
+							v := constant.BoolVal(c.Value)
+							if neg {
+								v = !v
+							}
+							if v {
+								succs = blk.Succs[:1]
+							} else {
+								succs = blk.Succs[1:]
+							}
+						}
+					}
+				}
+			}
+		}
+		for _, s := range succs {
+			if walk(s, blk) {
+				return true
+			}
+		}
+		return false
+	}
+	return walk(a.Block(), nil)
+}
+
+// MustPassFeasible: every feasible path from the entry of the function to target passes via.
+// Feasibility knows boolean flags: a merge of a boolean variable takes, on each way in, the
+// constant (or the already known merge) that way carries, and a branch on a known merge is
+// followed only the way its value says.
+func MustPassFeasible(via, target ssa.Instruction) bool {
+	fn := target.Parent()
+	if via.Block() == target.Block() && instrIndex(via) < instrIndex(target) {
+		return true
+	}
+	type key struct {
+		blk  *ssa.BasicBlock
+		from *ssa.BasicBlock
+		env  string
+	}
+	seen := map[key]bool{}
+	found := false // a path that reaches target without via
+	var walk func(blk, from *ssa.BasicBlock, env map[*ssa.Phi]bool, depth int)
+	walk = func(blk, from *ssa.BasicBlock, env map[*ssa.Phi]bool, depth int) {
+		if found || depth > 400 {
+			return
+		}
+		// bind the boolean merges of blk for the edge taken
+		env2 := map[*ssa.Phi]bool{}
+		for k, v := range env {
+			env2[k] = v
+		}
+		if from != nil {
+			pi := -1
+			for i, pb := range blk.Preds {
+				if pb == from {
+					pi = i
+				}
+			}
+			for _, in := range blk.Instrs {
+				ph, ok := in.(*ssa.Phi)
+				if !ok {
+					break
+				}
+				delete(env2, ph)
+				if pi < 0 || pi >= len(ph.Edges) || !isBoolType(ph.Type()) {
+					continue
+				}
+				switch e := ph.Edges[pi].(type) {
+				case *ssa.Const:
+					if e.Value != nil && e.Value.Kind() == constant.Bool {
+						env2[ph] = constant.BoolVal(e.Value)
+					}
+				case *ssa.Phi:
+					if v, ok := env[e]; ok {
+						env2[ph] = v
+					}
+				}
+			}
+		}
+		var ks []string
+		for k, v := range env2 {
+			ks = append(ks, fmt.Sprintf("%p=%v", k, v))
+		}
+		sort.Strings(ks)
+		k := key{blk, from, strings.Join(ks, ",")}
+		if seen[k] {
+			return
+		}
+		seen[k] = true
+		for _, in := range blk.Instrs {
+			if in == via {
+				return // this path passes via
+			}
+			if in == target {
+				found = true
+				return
+			}
+		}
+		succs := blk.Succs
+		if len(blk.Instrs) > 0 {
+			if iff, ok := blk.Instrs[len(blk.Instrs)-1].(*ssa.If); ok {
+				cond, neg := iff.Cond, false
+				if u, ok := cond.(*ssa.UnOp); ok && u.Op == token.NOT {
+					cond, neg = u.X, true
+				}
+				if ph, ok := cond.(*ssa.Phi); ok {
+					if v, known := env2[ph]; known {
+						if neg {
+							v = !v
+						}
+						if v {
+							succs = blk.Succs[:1]
+						} else {
+							succs = blk.Succs[1:]
+						}
+					}
+				}
+			}
+		}
+		for _, s := range succs {
+			walk(s, blk, env2, depth+1)
+		}
+	}
+	walk(fn.Blocks[0], nil, map[*ssa.Phi]bool{}, 0)
+	return !found
 }
